@@ -283,6 +283,17 @@ def stepLine (s : Sys) (toks : List String) : Sys × List String :=
     match parsePosts posts with
     | some ps => if s.ringLive then s.rpoll ps else (s, ["bad-op"])
     | none => (s, ["bad-op"])
+  | ["life", "race", kind, i, w, sched] =>
+    -- two threads race on operation `i` (see the harness); the effects are
+    -- reported by the two following ops, in linearisation order
+    match parseNat i, parseNat w, getOp s (i.toNat?.getD 0) with
+    | some _, some _, some o =>
+      if (kind == "drop" || kind == "poll") && o.futLive && s.ringLive
+          && (s.cq.filter (fun c => c.ud == .op (i.toNat?.getD 0) && !fSkip c.flags)).length == 1
+          && sched.startsWith "sched=" && sched.length > 6
+          && (sched.drop 6).all (fun c => c == '0' || c == '1') then (s, ["ok"])
+      else (s, ["bad-op"])
+    | _, _, _ => (s, ["bad-op"])
   | ["life", "rdrop"] =>
     if s.ringLive then
       let (s, o) := s.rdrop
